@@ -235,15 +235,17 @@ PROPS = {
         rule="writer.Sink over random format tables (0-3 formats) x configured format x writers {ok, failing, short n, nil} x nil event; FileSink /dev/null and stdout pass-through; ChannelSink with channel full/empty x context cancelled or not (timeout 15 ms); Event.FormattedAs/Format sequences; 1-16 concurrent Process calls with an interleaving check; distinct by op line",
     ),
     "C14": dict(
-        module="Evl.Props.C14Read",
+        module="Evl.Props.C14Parse",
         theorems=["Evl.C14.line", "Evl.C14.esc_no_nl", "Evl.C14.render_no_nl", "Evl.C14.unencodable", "Evl.C14.predicate", "Evl.C14.table",
-                  "Evl.Json.read_esc", "Evl.C14.type_decodes_back", "Evl.C14.ascii_type_decodes_back"],
+                  "Evl.Json.read_esc", "Evl.C14.type_decodes_back", "Evl.C14.ascii_type_decodes_back",
+                  "Evl.Json.render_toks", "Evl.Json.parseV_render", "Evl.Json.parse_render", "Evl.Json.image_clean",
+                  "Evl.C14.line_parses_back", "Evl.C14.line_determines_payload"],
         runs=[dict(model="json", sub="json", driver="json", quick=["-n", "6000"], thorough=["-n", "300000"], search=["-n", "60000"])],
-        oracle_prefixes=["C14"], models=["M8 Json", "M9 Sinks(table)"],
+        oracle_prefixes=["C14"], models=["M8 Json", "M8r JsonParse", "M9 Sinks(table)"],
         trusted_base=TB_COMMON,
         assumptions=["encoding/json on leaves: number tokens (strconv) and time.Time's RFC 3339 rendering are passed verbatim to the model; map keys are sorted bytewise by the encoder",
                      "the harness flattens the generated Go value into the token stream in the encoder's order; unsupported kinds (chan, NaN/Inf) are marked by the harness",
-                     "decoding back: the event type is proved to read back (Evl.Json.readStr, a JSON string reader written for this purpose; invalid UTF-8 comes back as U+FFFD); partial: the creation time and the payload image are checked on the implementation with encoding/json as the reader, not proved; race freedom of the table is C19's lock-set theorem"],
+                     "decoding back: proved with the model's own strict JSON parser (M8r Evl.Json.parseDoc / readStr: compact documents, RFC 8259 number grammar, invalid UTF-8 comes back as U+FFFD) - the whole stored line parses to the object {created_at, event_type, payload} holding the images of the three; that parser is itself compared with encoding/json as a reader (json.Valid + Decoder.Token) on the stored lines and on lines damaged in one place (operations parse / accepts); trusted: the bytes time.Time and strconv produce for the creation time and for numbers (a JSON value each); race freedom of the table is C19's lock-set theorem"],
         rule="payloads from a JSON-value generator (nil, bools, large ints, floats incl. NaN/Inf, strings built from control / HTML / multi-byte / U+2028/9 / invalid UTF-8 pieces, nested slices and maps to depth 3, channels) x event types with special characters x JSONFormatter / JSONFormatterFilter with predicate absent/keep/drop/error, eventlogger.Filter; the stored bytes are compared byte for byte with the model's rendering; non-trivial = a container or multi-token payload, distinct by op line",
     ),
     "C18": dict(
